@@ -219,6 +219,13 @@ var c01Shapes = []struct {
 	{"yield-from-blanks", func(n int) []byte { return []byte("<?php yield" + strings.Repeat(" \n", n/2) + "x;") }},
 }
 
+func c01CtxCases(p core.Params) int {
+	if p.Thorough() {
+		return gen.CtxBytesCount()
+	}
+	return (gen.CtxBytesCount() + 7) / 8
+}
+
 func c01Versions(r *core.Rand) []string {
 	vs := []string{gen.Versions5[r.Intn(len(gen.Versions5))], gen.Versions7[r.Intn(len(gen.Versions7))]}
 	if r.Chance(1, 2) {
@@ -353,8 +360,9 @@ func init() {
 		Env:     func(p core.Params) []string { return []string{"VERIF_STATS=1"} },
 		CaseCPU: 60,
 		Plan: func(p core.Params) int {
-			return len(gen.Corpus()) + p.Pick(90000, 4000000)
+			return len(gen.Corpus()) + c01CtxCases(p) + p.Pick(90000, 4000000)
 		},
+		Exhaustive: func(p core.Params) bool { return false },
 		Run: func(c *core.Ctx, idx int) {
 			cor := gen.Corpus()
 			if idx < len(cor) {
@@ -362,6 +370,24 @@ func init() {
 				c01Case(c, src, []string{"5.6", "7.4", "7.2", "5.3"}, "corpus")
 				return
 			}
+			idx -= len(cor)
+			if n := c01CtxCases(c.P); idx < n {
+				// the context x byte space: complete in the thorough tier, a seed-rotated 1/8 slice in quick
+				k := idx
+				if !c.P.Thorough() {
+					k = idx*8 + int(uint64(c.P.Seed)%8)
+				}
+				if k < gen.CtxBytesCount() {
+					src := gen.CtxBytes(k)
+					vs := []string{"5.6", "7.4"}
+					if k%3 == 0 {
+						vs = []string{"5.3", "7.2"}
+					}
+					c01Case(c, src, vs, "context-x-byte")
+				}
+				return
+			}
+			idx += len(cor) - c01CtxCases(c.P)
 			r := core.NewRand(c.P.Seed, "C01", idx)
 			switch k := idx % 400; {
 			case k == 7:
